@@ -5,14 +5,17 @@
    blocks swapped; a chromosome met twice).  Lengths: 5 (a short run) or several hundred / thousand lines. *)
 EXTENDS Naturals, Sequences, TLC, Json
 CONSTANTS MaxRuns
-VARIABLES runs, done
+VARIABLES runs, done, bad, at
 Lens == {5, 900, 2100}
-Init == runs = <<>> /\ done = FALSE
+\* bad: 0 = every line is well formed; 1 = one line without a start, 2 = one line with a non-numeric start, 3 = one line
+\* without an end -- placed in the middle of run `at`
+Init == runs = <<>> /\ done = FALSE /\ bad = 0 /\ at = 0
 Add == /\ ~done /\ Len(runs) < MaxRuns
        /\ \E c \in 1..3, n \in Lens : (IF Len(runs) = 0 THEN TRUE ELSE runs[Len(runs)][1] # c) /\ runs' = Append(runs, <<c, n>>)
-       /\ UNCHANGED done
-Stop == ~done /\ Len(runs) >= 2 /\ (\E i \in 1..Len(runs) : runs[i][2] > 5) /\ done' = TRUE /\ UNCHANGED runs
+       /\ UNCHANGED <<done, bad, at>>
+Stop == /\ ~done /\ Len(runs) >= 2 /\ (\E i \in 1..Len(runs) : runs[i][2] > 5) /\ done' = TRUE /\ UNCHANGED runs
+        /\ \E b \in 0..3 : bad' = b /\ (IF b = 0 THEN at' = 0 ELSE at' \in 1..Len(runs))
 Next == Add \/ Stop
 ChromOrderBadRuns(r) == \E i \in 1..(Len(r) - 1) : r[i][1] > r[i+1][1]
-Emit == done => PrintT(<<"REPLAY", ToJson([runs |-> runs, must |-> IF ChromOrderBadRuns(runs) THEN 1 ELSE 0])>>)
+Emit == done => PrintT(<<"REPLAY", ToJson([runs |-> runs, bad |-> bad, at |-> at, must |-> IF ChromOrderBadRuns(runs) \/ bad # 0 THEN 1 ELSE 0])>>)
 =============================================================================
